@@ -48,6 +48,10 @@ history = {
  'C01k':'frozen','C02k':'frozen','C03k':'after','C04k':'frozen','C05k':'after','C06k':'frozen-other','C07k':'frozen','C08k':'frozen',
  'C09k':'after','C10k':'frozen','C11k':'frozen','C13k':'frozen','C14k':'frozen','C15k':'frozen-other','C16k':'after','C17k':'frozen',
  'C18k':'frozen','C19k':'frozen-other','C20k':'after',
+ # round l: rules frozen at tag rules-frozen-for-round-l-seeds; first run in refs/round_l_first_run.txt
+ 'C01l':'frozen-other','C02l':'frozen','C03l':'after','C04l':'frozen-other','C05l':'frozen-other','C06l':'frozen','C07l':'frozen','C08l':'after',
+ 'C09l':'frozen','C10l':'frozen-other','C11l':'frozen-other','C13l':'frozen','C14l':'frozen','C15l':'frozen-other','C16l':'frozen-other','C17l':'frozen',
+ 'C18l':'after','C19l':'frozen','C20l':'frozen',
 }
 seeds = sys.argv[1:] or sorted(d for d in os.listdir('seeded') if os.path.isdir('seeded/'+d))
 out = subprocess.run(['tools/run_seeds.sh'] + seeds, capture_output=True, text=True).stdout
